@@ -598,15 +598,16 @@ func setOf(ids ...uint32) *roaring.Bitmap { return roaring.BitmapOf(ids...) }
 
 // resolve learns, through the lookups, the ids of tag keys / tag values that were created inside
 // GenSeriesID, and checks every lookup against what the model already knows:
-// GetMetricID, GetSchema, FindTagValueIDsForTag + CollectTagValues, FindTagValueDsByExpr,
-// SuggestMetrics. exact=true (live node, everything the harness created is present): lookups
+// GetMetricID, GetSchema, FindTagValueIDsForTag + CollectTagValues, FindTagValueDsByExpr.
+// exact=true (live node, everything the harness created is present): lookups
 // must return exactly the model; exact=false (recovered node after new creations): every model
 // name must be present with its id, extra recovered entries are judged elsewhere.
+//
+// The Suggest* functions are not part of this oracle: they enumerate through the trie iterator,
+// which is C20's subject.
 func resolve(n *node, m *model, exact bool) error {
-	byNS := map[string][]string{}
 	for _, k := range sortedMetricKeys(m.metrics) {
 		mm := m.metrics[k]
-		byNS[k.NS] = append(byNS[k.NS], k.Name)
 		id, found, err := lookupMetric(n, k)
 		if err != nil {
 			return fmt.Errorf("GetMetricID(%s): %w", k, err)
@@ -698,24 +699,6 @@ func resolve(n *node, m *model, exact bool) error {
 					return fmt.Errorf("LOOKUP DISAGREES: FindTagValueDsByExpr(%s[%s=%s]) = %s, dictionary says id %d", k, tk, v, bitmapString(got), x.id)
 				}
 			}
-		}
-	}
-	for _, ns := range sortedKeys(byNS) {
-		got, err := n.meta.SuggestMetrics(ns, "", 100000)
-		if err != nil {
-			return fmt.Errorf("SuggestMetrics(%s): %w", ns, err)
-		}
-		gs := map[string]bool{}
-		for _, g := range got {
-			gs[g] = true
-		}
-		for _, want := range byNS[ns] {
-			if !gs[want] {
-				return fmt.Errorf("LOOKUP DISAGREES: SuggestMetrics(%s) = %v lacks metric %q", ns, got, want)
-			}
-		}
-		if exact && len(gs) != len(byNS[ns]) {
-			return fmt.Errorf("LOOKUP DISAGREES: SuggestMetrics(%s) = %v, created %v", ns, got, byNS[ns])
 		}
 	}
 	return nil
